@@ -14,6 +14,7 @@ mod api;
 mod comp;
 mod cparse;
 mod ctx;
+mod fence;
 mod gen;
 mod mon;
 mod plain;
@@ -180,6 +181,30 @@ fn main() {
             }
             let extra: Value = m.extra();
             c.summary(extra);
+        }
+        "digest" => {
+            // C14, cross-process part: one line with the digest of every public function's result on a
+            // seeded input set, computed on `threads` threads (all of which must agree)
+            let args = parse_args(&argv[2..]);
+            ctx::silence_stdout();
+            let threads = args.nshards.max(1) as usize;
+            let mut all = vec![];
+            for k in 0..3u64 {
+                let inputs = std::sync::Arc::new(mon::c14::input_set(args.seed, k, 8, 6000));
+                let hs: Vec<_> = (0..threads)
+                    .map(|_| {
+                        let inputs = inputs.clone();
+                        std::thread::spawn(move || mon::c14::digest_of_baseline(&mon::c14::baseline(&inputs)))
+                    })
+                    .collect();
+                let ds: Vec<u64> = hs.into_iter().map(|h| h.join().unwrap_or(0)).collect();
+                if ds.iter().any(|d| *d != ds[0]) {
+                    eprintln!("DIGEST-THREADS-DISAGREE {:?}", ds);
+                    std::process::exit(3);
+                }
+                all.push(ds[0]);
+            }
+            eprintln!("DIGEST {}", all.iter().map(|d| format!("{:016x}", d)).collect::<Vec<_>>().join(""));
         }
         "judge" => {
             let id = argv[2].clone();
